@@ -12,4 +12,4 @@ Definition judge (monitor_ok : bool) (same_as_model : bool) (known_class : N) : 
   else (1, known_class).
 
 (* one row per sub-check: [case id; sub-check id; code; class] *)
-Definition row (id sub : N) (v : N * N) : list N := [id; sub; fst v; snd v].
+Definition vrow (id sub : N) (v : N * N) : list N := [id; sub; fst v; snd v].
